@@ -27,4 +27,14 @@ def renderBp (p : BufferingPeriod) : String :=
   s!"BufferingPeriod \{ nal_hrd_bp: {l p.nalHrdBp}, vcl_hrd_bp: {l p.vclHrdBp} }"
 
 
+
+open SeiPayload in
+/-- what the harness prints for a parsed pic_timing: the Debug text and, per present clock timestamp, the accessors s:m:h -/
+def ptObs (p : PicTiming) : String :=
+  let acc := match p.picStruct with
+    | none => ""
+    | some ps => " smh=[" ++ ",".intercalate (ps.clockTimestamps.map fun (c : Option ClockTimestamp) => match c with
+        | none => "-"
+        | some c => s!"{c.smh.seconds}:{c.smh.minutes}:{c.smh.hours}") ++ "]"
+  s!"Ok({renderPicTiming p}){acc}"
 end Render
